@@ -190,8 +190,23 @@ impl View for Text {
     ) -> Result<(), Error> {
         let mut size = Size::empty();
         let mut cursor = Position::origin();
-        self.cells.iter().for_each(|cell| {
-            cell.layout(ctx, ct.max.width, self.wraps, &mut size, &mut cursor);
+        self.cells.iter().for_each(|cell| match cell.kind() {
+            // without glyph support writer puts fallback characters one by one,
+            // measure them the same way
+            crate::render::CellKind::Glyph(glyph) if !ctx.has_glyphs() => {
+                for character in glyph.fallback_str().chars() {
+                    Cell::new_char(cell.face(), character).layout(
+                        ctx,
+                        ct.max.width,
+                        self.wraps,
+                        &mut size,
+                        &mut cursor,
+                    );
+                }
+            }
+            _ => {
+                cell.layout(ctx, ct.max.width, self.wraps, &mut size, &mut cursor);
+            }
         });
         *layout = Layout::new().with_size(ct.clamp(size));
         Ok(())
